@@ -30,7 +30,11 @@ RULE = ('Hypothesis: FileSpec (1-5 dims of length 1-5, 1-5 variables of rank '
         'on generated gridded IOAPI files (TSTEP/LAY/ROW/COL selectors, '
         'uneven and repeated TSTEP lists, zipped ROW+COL): data variables '
         'and every column of the time-flag variable must hold exactly the '
-        'selected elements.  Distinct by sha1 of the case spec.')
+        'selected elements.  One case in seven drives the string form '
+        'slice_dim(f, "dim,start,stop,stride") on files that hold a sibling '
+        'dimension whose name starts with the selected name; one generic case '
+        'in four carries a fixed-width text variable (S2/S4/S5).  Distinct by '
+        'sha1 of the case spec.')
 ASSUMPTIONS = ['numpy basic/take indexing is the reference for orthogonal '
                'selection', 'empty index lists are outside the domain']
 BUDGET = {'quick': dict(examples=3200, max_s=240),
@@ -60,6 +64,18 @@ def cases(draw, tier='quick'):
                           masked=True))
     names = [d[0] for d in fs['dims']]
     dlen = {d[0]: d[1] for d in fs['dims']}
+    if draw(st.integers(0, 3)) == 0:
+        # a fixed-width text variable (station ids, flags) wider than one
+        # character, with or without selected dimensions
+        rank = draw(st.integers(0, min(2, len(names))))
+        vd = list(draw(st.permutations(names))[:rank])
+        width = draw(st.sampled_from([2, 4, 5]))
+        size = int(np.prod([dlen[d] for d in vd])) if vd else 1
+        words = draw(st.lists(st.text(alphabet='ABCKXYZ09', min_size=width,
+                                      max_size=width), min_size=size,
+                              max_size=size))
+        fs['vars'].append(dict(name='sid', dims=vd, dtype='S%d' % width,
+                               data=words, mask=None, fill=None, attrs={}))
     k = draw(st.integers(1, len(names)))
     chosen = draw(st.permutations(names))[:k]
     zipped = draw(st.integers(0, 4)) == 0 and len(names) >= 2
@@ -95,6 +111,9 @@ def cases(draw, tier='quick'):
         # (|data| <= 1000), no unlimited dimension without data.
         for d in fs['dims']:
             d[2] = False
+        # fixed-width text wider than one character needs a character
+        # dimension in netCDF: not representable as is
+        fs['vars'] = [v for v in fs['vars'] if v['dtype'] in S.DT]
         for v in fs['vars']:
             if v.get('fill') is not None:
                 v['fill'] = -9999
@@ -142,9 +161,63 @@ def cases_ioapi(draw, tier='quick'):
     return dict(ioapi=sp, sel=[list(x) for x in sel], newdims=None)
 
 
+SIBLINGS = [('lev', 'lev_stag'), ('x', 'xb'), ('bottom_top',
+                                                'bottom_top_stag'),
+            ('t', 'time'), ('y', 'y_2d'), ('lat', 'latitude')]
+
+
+@st.composite
+def cases_strform(draw, tier='quick'):
+    """the string form slice_dim(f, 'dim,start[,stop[,stride]]') of
+    core/_functions.py on files that also hold a sibling dimension whose
+    name merely STARTS with the selected name (staggered-grid style); the
+    documented fuzzy matching covers only name+digits suffixes, which are not
+    generated.  Unmasked variables only (the Pseudo2NetCDF copy of untouched
+    variables stores masked cells as fill values)."""
+    base, sib = draw(st.sampled_from(SIBLINGS))
+    others = draw(st.lists(st.sampled_from(['a', 'b', 'c']), min_size=0,
+                           max_size=2, unique=True))
+    names = draw(st.permutations([base, sib] + others))
+    lens = [draw(st.integers(2, 5)) for _ in names]
+    dlen = dict(zip(names, lens))
+    variables = []
+    for i in range(draw(st.integers(2, 4))):
+        rank = draw(st.integers(1, min(3, len(names))))
+        vd = list(draw(st.permutations(list(names)))[:rank])
+        if i == 0 and base not in vd:
+            vd[0] = base
+        if i == 1:
+            vd = [d for d in vd if d != base] or [sib]
+            if sib not in vd:
+                vd[0] = sib
+        vd = list(dict.fromkeys(vd))
+        code = draw(st.sampled_from(['f4', 'f8', 'i4']))
+        size = int(np.prod([dlen[d] for d in vd]))
+        data = draw(st.lists(S._elements(code, {}), min_size=size,
+                             max_size=size))
+        variables.append(dict(name='v%d' % i, dims=vd, dtype=code, data=data,
+                              mask=None, fill=None,
+                              attrs=draw(S._attrs({'attr_kinds': ('str',
+                                                                  'float')},
+                                                  ['units', 'long_name'],
+                                                  2))))
+    fs = dict(dims=[[n, l, False] for n, l in zip(names, lens)],
+              vars=variables, gattrs={'title': 'strform'})
+    n = dlen[base]
+    form = draw(st.sampled_from(['idx', 'range', 'stride']))
+    a = draw(st.integers(0, n - 1))
+    if form == 'idx':
+        parts = [a]
+    elif form == 'range':
+        parts = [a, draw(st.integers(a + 1, n))]
+    else:
+        parts = [a, draw(st.integers(a + 1, n)), draw(st.integers(1, 3))]
+    return dict(strform=fs, dim=base, parts=parts)
+
+
 def strategy(tier):
     return st.one_of(cases(tier), cases(tier), cases(tier), cases(tier),
-                     cases_ioapi(tier))
+                     cases_ioapi(tier), cases(tier), cases_strform(tier))
 
 
 def enumerate_cases(tier):
@@ -314,9 +387,64 @@ def check_ioapi(case):
     return r
 
 
+def check_strform(case):
+    from PseudoNetCDF.core._functions import slice_dim
+    r = Result()
+    fs = case['strform']
+    m = S.model_of(fs)
+    f = S.build_file(fs)
+    dim = case['dim']
+    parts = case['parts']
+    text = ','.join([dim] + [str(p) for p in parts])
+    r.label('route:strform', 'strform:%d-args' % len(parts))
+    r.nontrivial = True
+    ok, out = guard(r, 'strform-raises', lambda: slice_dim(f, text))
+    if not ok:
+        return r
+    for msg in S.wellformed(out, 'result'):
+        r.fail('strform-malformed', msg)
+    if r.failures:
+        return r
+    if len(parts) == 1:
+        sl = slice(parts[0], parts[0] + 1)
+    else:
+        sl = slice(*parts)
+    n = m.dims[dim][0]
+    for d, (l, u) in m.dims.items():
+        want = len(range(n)[sl]) if d == dim else l
+        if d not in out.dimensions or len(out.dimensions[d]) != want:
+            r.fail('strform-dim-length', 'dimension %s has length %s, '
+                   'expected %d after slice_dim(f, %r)' % (
+                       d, len(out.dimensions[d]) if d in out.dimensions
+                       else None, want, text),
+                   klass='selected' if d == dim else 'other')
+    for name, mv in m.vars.items():
+        if name not in out.variables:
+            r.fail('strform-var-missing', 'variable %s missing' % name)
+            continue
+        exp = np.asarray(mv.data)
+        if dim in mv.dims:
+            idx = [slice(None)] * exp.ndim
+            idx[mv.dims.index(dim)] = sl
+            exp = exp[tuple(idx)]
+        ov = out.variables[name]
+        if tuple(ov.dimensions) != tuple(mv.dims):
+            r.fail('strform-var-dims', 'variable %s dims %r, expected %r' % (
+                name, tuple(ov.dimensions), mv.dims))
+            continue
+        msg = S.cmp_array(ov, exp, 'variable %s%r' % (name, mv.dims),
+                          bits=True, check_mask=False)
+        if msg:
+            r.fail('strform-var-data', msg,
+                   klass='sliced' if dim in mv.dims else 'untouched')
+    return r
+
+
 def check_case(case):
     if 'ioapi' in case:
         return check_ioapi(case)
+    if 'strform' in case:
+        return check_strform(case)
     r = Result()
     fs = case['file']
     m = S.model_of(fs)
